@@ -2,6 +2,7 @@ package headers
 
 import (
 	"fmt"
+	"sort"
 )
 
 func readKey(str string, separator byte) (string, string) {
@@ -70,4 +71,15 @@ func keyValParse(str string, separator byte) (map[string]string, error) {
 	}
 
 	return ret, nil
+}
+
+// sortedKeys returns the keys of a map in a fixed order,
+// in order to make the result of parsing independent of the map iteration order.
+func sortedKeys(kvs map[string]string) []string {
+	keys := make([]string, 0, len(kvs))
+	for k := range kvs {
+		keys = append(keys, k)
+	}
+	sort.Strings(keys)
+	return keys
 }
